@@ -300,7 +300,7 @@ pub const HAZARD_FINDINGS: &[(&str, &[&str])] = &[
     ("dup_names", &["C05-dedup-select-items"]),
     ("dup_select", &["C05-same-column-merged"]),
     ("neg_neg", &["C02-double-negation"]),
-    ("open_take", &["C07-offset-without-limit"]),
+    ("open_take", &["C07-offset-without-limit", "C07-noop-take-keeps-sort"]),
     ("wild_helpers", &["C05-wildcard-helper-leak"]),
     ("append_free", &["C01-append-pruning"]),
     ("int_divi", &["C02-sqlite-divi-small-int"]),
@@ -313,6 +313,10 @@ pub const HAZARD_FINDINGS: &[(&str, &[&str])] = &[
     ("win_over_win", &["C07-window-over-window-sort-scope"]),
     ("mul_right", &["C02-mul-right-operand-parens"]),
     ("sorted_group_derive", &["C03-take-before-group-loses-sort"]),
+    ("group_take_sort_agg", &["C12-group-take-sort-aggregate", "C07-group-take-sort-aggregate"]),
+    ("resort_after_take", &["C03-take-sort-take-merged"]),
+    ("sort_by_windowed", &["C07-sort-by-windowed-scope"]),
+    ("take_far_from_sort", &["C07-sort-column-pruned-before-take"]),
     ("wild_let", &["C07-wildcard-let-derive-name"]),
     ("const_fold", &["C05-same-column-merged", "C02-const-null-fold"]),
     ("dropped_key_join", &["C03-dropped-sort-key-join"]),
